@@ -19,7 +19,6 @@ import (
 	"github.com/MinterTeam/minter-go-node/config"
 	"github.com/MinterTeam/minter-go-node/coreV2/minter"
 	"github.com/MinterTeam/minter-go-node/coreV2/state"
-	"github.com/MinterTeam/minter-go-node/coreV2/statistics"
 	"github.com/MinterTeam/minter-go-node/coreV2/types"
 	"github.com/cosmos/cosmos-sdk/snapshots"
 	abci "github.com/tendermint/tendermint/abci/types"
@@ -145,7 +144,7 @@ func (n *Node) open() {
 	if opts.Wrap != nil {
 		n.App.VerifAppDB().VerifWrapDB(func(d db.DB) db.DB { return opts.Wrap("app", d) })
 	}
-	n.App.SetStatisticData(statistics.New())
+	// statistics stay nil: the node handles a nil *statistics.Data (no consumer goroutine runs here)
 	if !opts.NilTmNode {
 		n.App.VerifSetTmNode(stubTmNode())
 	}
@@ -448,6 +447,30 @@ func (n *Node) Info() (res abci.ResponseInfo, pi *PanicInfo) {
 // DiskState builds a fresh read-only state from disk at height h.
 func (n *Node) DiskState(h uint64) (*state.CheckState, error) {
 	return state.NewCheckStateAtHeightV3(h, n.Storage.StateDB())
+}
+
+// LastVersion is the newest IAVL version on disk (equals the height unless the chain started at height 1).
+func (n *Node) LastVersion() uint64 {
+	vs := n.App.AvailableVersions()
+	if len(vs) == 0 {
+		return 0
+	}
+	return uint64(vs[len(vs)-1])
+}
+
+// DiskExport exports the last committed state from a fresh state object built from disk only.
+func (n *Node) DiskExport() (e *types.AppState, err error) {
+	defer func() {
+		if r := recover(); r != nil {
+			err = fmt.Errorf("panic in disk export: %v", r)
+		}
+	}()
+	cs, err := n.DiskState(n.LastVersion())
+	if err != nil {
+		return nil, err
+	}
+	x := cs.Export()
+	return &x, nil
 }
 
 // Tags returns the tags of a DeliverTx response as a map (last one wins) .
